@@ -348,6 +348,88 @@ func runQUIC(c *vh.Ctx, n int) {
 	}
 }
 
+// boundaryIDs: small ids (everything below and just above 27), and the neighbourhood of every power of two
+// at which uint64 / varint arithmetic wraps.
+func boundaryIDs() []uint64 {
+	var ids []uint64
+	for i := uint64(0); i <= 96; i++ {
+		ids = append(ids, i)
+	}
+	for _, c := range []uint64{1 << 14, 1 << 30, 1 << 32, 1 << 62, 1 << 63} {
+		for d := uint64(0); d <= 70; d++ {
+			ids = append(ids, c-d, c+d)
+		}
+	}
+	for d := uint64(0); d <= 70; d++ {
+		ids = append(ids, ^uint64(0)-d)
+	}
+	return ids
+}
+
+// runQUICBoundaries: IsGREASEID and GREASETransportParameter{IdOverride} on boundary ids, through ID() and,
+// where the id can be encoded at all (< 2^62), through TransportParameters.Marshal.
+func runQUICBoundaries(c *vh.Ctx) {
+	src := vh.NewRand(c.Rng.Int63())
+	var isg, tps []string
+	flush := func(force bool) {
+		if len(isg) >= 200 || (force && len(isg) > 0) {
+			c.Case("quic-is-grease-id", "(CIsGreaseIds "+vh.List(isg)+")", "isg/"+isg[0], true, nil)
+			isg = nil
+		}
+		if len(tps) >= 150 || (force && len(tps) > 0) {
+			c.Case("quic-tp-id-boundary", "(CTpIds "+vh.List(tps)+")", "tps/"+tps[0], true, nil)
+			tps = nil
+		}
+	}
+	for _, id := range boundaryIDs() {
+		// the property's own definition of a GREASE transport parameter id: 31*N+27
+		want := id%31 == 27
+		got := tls.GREASETransportParameter{}.IsGREASEID(id)
+		if got != want {
+			fail(c, fmt.Sprintf("quic-is-grease-id/id=%d", id), "IsGREASEID disagrees with 'id = 31*N+27'", map[string]any{"id": id}, got, want)
+		}
+		isg = append(isg, fmt.Sprintf("(%d, %s)", id, vh.Bool(got)))
+
+		// IdOverride = id through ID(): kept iff it is a GREASE id, otherwise replaced by a generated one
+		l := &logReader{src: src}
+		g := &tls.GREASETransportParameter{IdOverride: id, Length: 2}
+		var out uint64
+		withReader(l, func() { out = g.ID() })
+		draw, hasDraw := uint64(0), false
+		if len(l.log) > 0 {
+			d, _ := redraw(l.log, greaseMaxMultiplier, 1)
+			draw, hasDraw = d[0], true
+		}
+		input := map[string]any{"id_override": id, "rand_int_draw": draw, "drew": hasDraw}
+		if out%31 != 27 {
+			fail(c, fmt.Sprintf("quic-tp/id-override=%d", id), "GREASETransportParameter.ID() returned an id that is not 31*N+27", input, out, "31*N+27")
+		}
+		if want && out != id {
+			fail(c, fmt.Sprintf("quic-tp/id-override=%d", id), "a valid GREASE IdOverride was not used", input, out, id)
+		}
+		tps = append(tps, fmt.Sprintf("(%d, %s, %d)", id, optN(hasDraw, draw), out))
+
+		// the same through Marshal (what reaches the wire); ids >= 2^62 cannot be encoded as a varint at all
+		if id < 1<<62 {
+			l2 := &logReader{src: src}
+			g2 := &tls.GREASETransportParameter{IdOverride: id, Length: 1}
+			var body []byte
+			panicked, pv := vh.Recover(func() {
+				withReader(l2, func() { body = tls.TransportParameters{tls.MaxIdleTimeout(1), g2}.Marshal() })
+			})
+			if panicked {
+				fail(c, fmt.Sprintf("quic-tp/marshal-override=%d", id), "Marshal panicked on a GREASE parameter with IdOverride", input, fmt.Sprint(pv), "no panic")
+			} else if ps, err := parseTPs(body); err != nil || len(ps) != 2 {
+				fail(c, fmt.Sprintf("quic-tp/marshal-override=%d", id), "marshaled transport parameters do not parse back", input, vh.Hex(body), "2 parameters")
+			} else {
+				quicIDOracle(c, fmt.Sprintf("quic-tp/marshal-override=%d", id), map[string]any{"id_override": id, "body": vh.Hex(body)}, ps[1].id)
+			}
+		}
+		flush(false)
+	}
+	flush(true)
+}
+
 type tparam struct {
 	id  uint64
 	val []byte
